@@ -240,7 +240,7 @@ func genOp(rng *rand.Rand, kinds string) gop {
 	o := gop{kind: kinds[rng.Intn(len(kinds))]}
 	switch o.kind {
 	case 'R':
-		o.n = []int{0, 1, 8, 15, 16, 17, 32, 4096}[rng.Intn(8)]
+		o.n = []int{0, 1, 8, 15, 16, 17, 32, 64}[rng.Intn(8)]
 	case 'W':
 		if rng.Intn(3) > 0 {
 			o.data = randFrameBytes(rng)
